@@ -10,6 +10,7 @@ import OAP.Model.Client.Quartet
 import OAP.Model.Client.SingleFlight
 import OAP.Proofs.Waiters
 import OAP.Gen.Facts
+import OAP.Model.Client.LockWait
 namespace OAP.C06
 open OAP
 
@@ -65,5 +66,30 @@ recursive read lock would deadlock against a recovery that asks for the write lo
 theorem write_helper_lock_free :
     Gen.seq_client_write = ["c.conn.Write"] := by
   decide
+
+/-! ### view LockWait: every request call returns — after Close without waiting for its deadline -/
+
+/-- EVERY REQUEST CALL RETURNS once the client is closed, and not by its deadline: in every reachable state with the close
+signal set, a caller inside `Do` has an enabled step of its own that is not its timeout (at the select of `recv`:
+`case <-c.closeCh`), or it is blocked in `RLock` behind a writer and then some goroutine step that is neither a timer nor
+the peer's is enabled; by the budget of `C14.close_returns_promptly` (5) every such call has returned when the budget is
+used up -/
+theorem request_returns_after_close (acts0 : List LockWait.Act) (s : LockWait.St)
+    (h0 : LockWait.run LockWait.init acts0 = some s) (hc : s.closeSig = true)
+    (i : Nat) (h1 : s.dpc i ≠ .idle) (h2 : s.dpc i ≠ .ret) :
+    (∃ a, LockWait.isDo i a = true ∧ LockWait.isProg a = true ∧ LockWait.enabled s a) ∨
+    (s.dpc i = .wantR ∧ (s.writer ≠ none ∨ s.pendW ≠ 0) ∧ ∃ a, LockWait.isProg a = true ∧ LockWait.enabled s a) :=
+  LockWait.do_returns_after_close acts0 s h0 hc i h1 h2
+
+/-- what the atomic fast path of `reconnecting` buys the requests (variant `noFastPath`, D24 repaired, D20 not): with a
+recovery running and its auth request waiting, a second notifier of the same loss queues in `Lock()` and from then on the
+`RLock` of EVERY `Do` is refused — in every continuation without the auth timeout, without an answer to the auth request
+and without a Close: every request is delayed by up to the auth timeout -/
+theorem no_fast_path_blocks_requests :
+    ∃ s, LockWait.runV .noFastPath LockWait.init LockWait.demoC = some s ∧ s.dpc 0 = .wantR ∧ s.rc = .aWait false ∧
+      ∀ acts s', (∀ a ∈ acts, LockWait.quietC a = true) → LockWait.runV .noFastPath s acts = some s' →
+        s'.dpc 0 = .wantR ∧ s'.rc = .aWait false ∧
+        (∀ i, s'.dpc i = .wantR → LockWait.stepV .noFastPath s' (.d i) = none) :=
+  LockWait.no_fast_path_blocks_do_partial
 
 end OAP.C06
